@@ -43,6 +43,7 @@ int __wrap_clock_nanosleep(clockid_t c, int flags, const struct timespec *req, s
     unsigned long ns = (unsigned long)req->tv_sec * 1000000000ul + (unsigned long)req->tv_nsec;
     (void)c; (void)flags;
     if (!counting) return __real_clock_nanosleep(c, flags, req, rem);
+    if (req->tv_sec < 0 || req->tv_nsec < 0 || req->tv_nsec >= 1000000000L) return EINVAL;       /* as the kernel does */
     if (hit("clock_nanosleep")) {          /* interrupted after a third of the time: code returned, errno untouched */
         unsigned long slept = ns / 3 + (ns > 2000000 ? 123457 : 0), left = ns - slept;     /* the remaining time is not a whole number of milliseconds */
         if (sleep_left_ns && ns > sleep_left_ns) { left = sleep_left_ns; slept = ns - left; }
@@ -59,6 +60,7 @@ int __wrap_nanosleep(const struct timespec *req, struct timespec *rem)
 {
     unsigned long ns = (unsigned long)req->tv_sec * 1000000000ul + (unsigned long)req->tv_nsec;
     if (!counting) return __real_nanosleep(req, rem);
+    if (req->tv_sec < 0 || req->tv_nsec < 0 || req->tv_nsec >= 1000000000L) { errno = EINVAL; return -1; }
     if (hit("nanosleep")) { unsigned long slept = ns / 3 + (ns > 2000000 ? 123457 : 0), left = ns - slept; if (sleep_left_ns && ns > sleep_left_ns) { left = sleep_left_ns; slept = ns - left; } virt_ns += slept; if (rem) { rem->tv_sec = (time_t)(left / 1000000000ul); rem->tv_nsec = (long)(left % 1000000000ul); } errno = EINTR; return -1; }
     virt_ns += ns;
     return 0;
@@ -70,6 +72,7 @@ int __wrap_select(int n, fd_set *r, fd_set *w, fd_set *x, struct timeval *tv)
 {
     unsigned long ns;
     if (!counting || n != 0 || !tv) return __real_select(n, r, w, x, tv);
+    if (tv->tv_sec < 0 || tv->tv_usec < 0 || tv->tv_usec >= 1000000L) { errno = EINVAL; return -1; }
     ns = (unsigned long)tv->tv_sec * 1000000000ul + (unsigned long)tv->tv_usec * 1000ul;
     if (hit("select")) {
         unsigned long slept = ns / 3 + (ns > 2000000 ? 123000 : 0), left = ns - slept;
@@ -232,8 +235,15 @@ done:
     p_socket_free(u); p_socket_address_free(lo); p_socket_address_free(ua); p_socket_address_free(from); if (e) p_error_free(e);
 }
 
-static const struct { const char *name; void (*fn)(char *); } SC[] = {
-    {"sleep", sc_sleep}, {"sleep-interrupted-near-the-end", sc_sleep_late}, {"sem-available", sc_sem_avail}, {"sem-unit-arrives-later", sc_sem_later}, {"shm-lock", sc_shm}, {"ipc-open-create", sc_ipc_open}, {"tcp", sc_tcp}, {"udp", sc_udp},
+/* name, scenario, the outcome of the run without any injection (what the documented behaviour gives on this platform; the injected runs are compared with the
+ * run without injection, and that run is compared with this) */
+static const struct { const char *name; void (*fn)(char *); const char *expect; } SC[] = {
+    {"sleep", sc_sleep, "sleep rc=0 elapsed>=30ms:1"}, {"sleep-interrupted-near-the-end", sc_sleep_late, "sleep rc=0 elapsed>=30ms:1"},
+    {"sem-available", sc_sem_avail, "new=1 acquire=1 release=1"}, {"sem-unit-arrives-later", sc_sem_later, "acquire-after-wait=1"},
+    {"shm-lock", sc_shm, "new=1 open-existing=1 size=256 same-segment=1 same-lock=1 lock=1 unlock=1 byte=9 names-after-opener-free=11 names-after-owner-free=00"},
+    {"ipc-open-create", sc_ipc_open, "open-absent=1 open-present=1 create-present=1"},
+    {"tcp", sc_tcp, "connect=1 accept=1 send=5 wait=1 recv=5[hello] back=2[yo] idle-recv=-1 err=509"},
+    {"udp", sc_udp, "idle-wait=0 err=0 send_to=5 receive_from=5[dgram] from-port-ok=1"},
 };
 #define NSC ((int)(sizeof SC / sizeof SC[0]))
 
@@ -277,6 +287,7 @@ verif_private_netns();     hout_open(); p_libsys_init();
         if (argc > 3 && strncmp(SC[s].name, argv[3], strlen(argv[3]))) continue;        /* optional scenario-name prefix */
         n = run_one(s, -1, -1, base);
         hout_note("scenario %s: %ld blocking system call invocations; outcome: %s", SC[s].name, n, base);
+        if (strcmp(base, SC[s].expect)) { char sg[96]; snprintf(sg, sizeof sg, "%s/fault-free-outcome", SC[s].name); hout_viol("C19", sg, "", "scenario %s without any injection: outcome \"%s\", expected \"%s\"", SC[s].name, base, SC[s].expect); }
         if (strstr(base, "EINTR-ERROR") || strstr(base, "setup-failed")) { char sg[96]; snprintf(sg, sizeof sg, "%s/fault-free-run-bad", SC[s].name); hout_viol("C19", sg, "", "scenario %s without injection gives: %s", SC[s].name, base); continue; }
         for (k1 = 0; k1 < n + 2; k1++) for (k2 = -1; k2 < (pairs ? n + 3 : 0); k2++) {
             char sg[128], rp[160];
